@@ -21,7 +21,7 @@ func init() { register("C16", c16) }
 
 func c16(tier string) []*explore.Scenario {
 	var out []*explore.Scenario
-	for _, ic := range []string{"none", "rename", "reject"} {
+	for _, ic := range []string{"none", "rename", "reject", "nat"} {
 		out = append(out, c16Routing(ic, 3))
 	}
 	bound := 1
@@ -69,6 +69,12 @@ func c16Routing(intercept string, L int) *explore.Scenario {
 					if h.Destination == "b" {
 						return errors.New("rejected")
 					}
+					return nil
+				}
+			case "nat":
+				// presents every peer under a public name ("free to modify the passed in header")
+				ic = func(h *goatorepo.RequestHeader) error {
+					h.Source = "pub-" + h.Source
 					return nil
 				}
 			}
@@ -175,6 +181,12 @@ func c16Routing(intercept string, L int) *explore.Scenario {
 					gc.Header.ProxyRecord, oc.Header.ProxyRecord = nil, nil
 					gc.Header.ProxyNext, oc.Header.ProxyNext = nil, nil
 					gc.Header.Destination, oc.Header.Destination = "", ""
+					if intercept == "nat" {
+						if gc.Header.Source != "pub-"+oc.Header.Source {
+							vsched.Fail(fam+"|altered", "after%s: envelope %d reached %s with source %q, want the rewritten %q", seq, o.GetId(), peer, gc.Header.Source, "pub-"+oc.Header.Source)
+						}
+						gc.Header.Source, oc.Header.Source = "", ""
+					}
 					if !proto.Equal(gc, oc) {
 						vsched.Fail(fam+"|altered", "after%s: envelope %d reached %s altered beyond routing fields: %v vs %v", seq, o.GetId(), peer, gc, oc)
 					}
